@@ -96,7 +96,12 @@ func genScript(t *tape.Tape) []call {
 		case 4:
 			s = append(s, call{Name: "clock_res_get", Args: []uint64{uint64(t.Choose(5)), 0x100}, Out: [][2]uint32{{0x100, 8}}})
 		case 5, 6, 7:
-			s = append(s, call{Name: "clock_time_get", Args: []uint64{uint64(t.Choose(5)), uint64(t.Choose(1000)), 0x100}, Out: [][2]uint32{{0x100, 8}}})
+			// (precision: mostly below the clock's resolution, sometimes two milliseconds)
+			prec := uint64(t.Choose(1000))
+			if t.Chance(1, 4) {
+				prec = 2_000_000
+			}
+			s = append(s, call{Name: "clock_time_get", Args: []uint64{uint64(t.Choose(5)), prec, 0x100}, Out: [][2]uint32{{0x100, 8}}})
 		case 8, 9:
 			l := uint32(1 + t.Choose(64))
 			s = append(s, call{Name: "random_get", Args: []uint64{0x1000, uint64(l)}, Out: [][2]uint32{{0x1000, l}}})
@@ -229,7 +234,14 @@ func runScript(engine string, script []call, shared, sockFirst bool) (trace []st
 	}
 	ctx := context.Background()
 	defer g.Mod.Close(ctx)
+	pauses := 0
 	for i, c := range script {
+		if sockFirst && c.Name == "clock_time_get" && pauses < 3 {
+			// the third instance runs on a slower host: real time passes between its clock readings (three
+			// pauses of 3 ms at most); what the guest reads must not show it
+			time.Sleep(3 * time.Millisecond)
+			pauses++
+		}
 		for _, p := range c.Pre {
 			g.Write(p.Off, p.Data)
 		}
